@@ -90,7 +90,7 @@ New ==
          cls == Classify(e.fen)
      IN IF e.ok
         THEN LET op == PosOf(e.o)
-                 pp == Parse(e.fen)
+                 pp == Described(e.fen)      \* = Parse(e.fen) for a well-formed text
              IN /\ Report(
                      F(cls # "MustReject", "C17", "malformed FEN was imported", [fen |-> Str(e.fen), as |-> FenLine(op)])
                      \cup (IF cls = "MustAccept" \/ ImportJudged(e.fen)     \* accepted although it could have been refused: still the described position
@@ -322,6 +322,12 @@ UciFen ==
                      F(e.acc /\ Len(e.fl) >= 4 /\ e.fl[1] = FenFields(pp)[1] /\ e.fl[2] = FenFields(pp)[2] /\ e.fl[3] = FenFields(pp)[3]
                        /\ e.fl[4] \in {FenFields(pp)[4], FenFields(Normalize(pp))[4]},
                        "C17", "well-formed FEN was refused or shown as a different position by the position command",
+                       [fen |-> Str(e.fen), shown |-> e.fl])
+                ELSE IF ImportJudged(e.fen) /\ e.acc /\ ~e.died      \* may be refused; if shown, it is the described position
+                THEN LET pp == Described(e.fen) IN
+                     F(Len(e.fl) >= 4 /\ e.fl[1] = FenFields(pp)[1] /\ e.fl[2] = FenFields(pp)[2] /\ e.fl[3] = FenFields(pp)[3]
+                       /\ e.fl[4] \in {FenFields(pp)[4], FenFields(Normalize(pp))[4]},
+                       "C17", "a FEN with a void castling or en-passant claim was shown as a different position by the position command",
                        [fen |-> Str(e.fen), shown |-> e.fl])
                 ELSE {}))
   /\ UNCHANGED <<pos, prev, stk, recs, eng>> /\ l' = l + 1
